@@ -175,7 +175,8 @@ def eval_case(case: dict) -> dict:
 
 def gen_cases(tier: str, rng: random.Random):
     nmax = 2 if tier == 'quick' else 3
-    pnames, rnames = ['pa', 'pb', 'pc'][:nmax], ['ra', 'rb', 'rc'][:nmax]
+    # port names in the shapes an identifier can take: leading underscore, capitals, digits
+    pnames, rnames = ['_pa', 'pb', 'P_c9'][:nmax], ['ra', '_rb', 'rC_'][:nmax]
     psels = selections(pnames + ['zz'])
     rsels = selections(rnames + ['zz', 'inj'])
     valid_p = {'sts': 'NONE', 'mts': 'ALL'}
